@@ -4,7 +4,7 @@
    which the header maps are iterated. *)
 From Coq Require Import Lia ZifyN ZifyNat ZifyBool Permutation Sorted.
 From WP Require Import Base.Prelude Base.Decimal.
-From WP Require Import Model.Cbor Model.Http Model.Sxg.
+From WP Require Import Model.Cbor Model.BigEndian Model.Http Model.Sxg.
 From WP Require Import Spec.Cbor Spec.Sxg.
 From WP Require Import Proofs.BaseLemmas Proofs.CborHead Proofs.CborMap.
 Ltac Zify.zify_post_hook ::= Z.div_mod_to_equations.
@@ -354,12 +354,66 @@ Proof.
   unfold encode_exchange_headers. rewrite <- Ev, Hq, Hs. reflexivity.
 Qed.
 
+Lemma existsb_perm {A} (p : A -> bool) (l l' : list A) :
+  Permutation l l' -> existsb p l = existsb p l'.
+Proof.
+  induction 1 as [|x l l' _ IH|x y l|l l' l'' _ IH1 _ IH2]; cbn [existsb].
+  - reflexivity.
+  - rewrite IH. reflexivity.
+  - destruct (p x), (p y); reflexivity.
+  - congruence.
+Qed.
+
+Lemma write_refuses_perm (e e' : exchange) :
+  Permutation (e_reqh e) (e_reqh e') -> e_ver e = e_ver e' -> e_uri e = e_uri e' ->
+  write_refuses e = write_refuses e'.
+Proof.
+  intros Pq Ev Eu. unfold write_refuses. rewrite <- Ev, <- Eu.
+  rewrite (existsb_perm _ _ _ Pq). reflexivity.
+Qed.
+
+(* Write = the refusals (fallback URL not https; b2 request header ":url"), then
+   the serialisation proper *)
+Definition write_body (e : exchange) : R bytes :=
+  let* hdr := encode_exchange_headers e in
+  let hl := lenN hdr in
+  let sl := lenN (e_sig e) in
+  match e_ver e with
+  | V1b1 =>
+      let* a := be_encode (Z.of_N sl) 3 in
+      let* b := be_encode (Z.of_N hl) 3 in
+      Ok (header_magic V1b1 ++ a ++ b ++ e_sig e ++ hdr ++ e_payload e)
+  | v =>
+      let* ul := be_encode (Z.of_N (lenN (e_uri e))) 2 in
+      if 16384 <? sl then Err
+      else
+        let* a := be_encode (Z.of_N sl) 3 in
+        if 524288 <? hl then Err
+        else
+          let* b := be_encode (Z.of_N hl) 3 in
+          Ok (header_magic v ++ ul ++ e_uri e ++ a ++ b ++ e_sig e ++ hdr ++ e_payload e)
+  end.
+
+Lemma write_unfold (e : exchange) : write e = if write_refuses e then Err else write_body e.
+Proof. reflexivity. Qed.
+
+Lemma write_ok_body (e : exchange) (bs : bytes) :
+  write e = Ok bs <-> write_refuses e = false /\ write_body e = Ok bs.
+Proof.
+  rewrite write_unfold. destruct (write_refuses e); split.
+  - discriminate.
+  - intros [H _]. discriminate H.
+  - intros H. split; [reflexivity|exact H].
+  - intros [_ H]. exact H.
+Qed.
+
 Corollary write_perm_invariant (e e' : exchange) :
   Permutation (e_reqh e) (e_reqh e') -> Permutation (e_resph e) (e_resph e') ->
   e_ver e = e_ver e' -> e_uri e = e_uri e' -> e_method e = e_method e' ->
   e_status e = e_status e' -> e_sig e = e_sig e' -> e_payload e = e_payload e' ->
   write e = write e'.
 Proof.
-  intros Pq Ps Ev Eu Em Est Esg Ep. unfold write.
+  intros Pq Ps Ev Eu Em Est Esg Ep. rewrite !write_unfold. unfold write_body.
+  rewrite (write_refuses_perm e e' Pq Ev Eu).
   rewrite (headers_perm_invariant e e' Pq Ps Ev Eu Em Est), <- Ev, <- Eu, <- Esg, <- Ep. reflexivity.
 Qed.
